@@ -84,8 +84,10 @@ theorem ledLoop_continues (inp : Input) (pe : Nat → PState → Except PErr (PN
     ledLoop inp pe (n + 1) rbp lhs p = ledLoop inp pe n rbp lhs' p2 := by
   simp [ledLoop, h, ha, hl, bind, Except.bind]
 
-/-- the source's loop condition is `rbp < bp(next token)` -/
-theorem fact_pratt_loop_cond : Generated.prattLoopCond = "rbp < p.lookupBp(p.token.Type)" := by decide
+/-- the source's loop condition is `rbp < bp(next token)`: the expression parser (the method the exported
+    `Parse` calls with 0) loops while its parameter is smaller than the value a method returns for the type of the
+    current token — normalised by the extractor, so the names of the parameter and of that method do not matter -/
+theorem fact_pratt_loop_cond : Generated.prattLoopCond = "rbp < bp(token)" := by decide
 
 /-! ### associativity is encoded by the right binding power each led passes on -/
 
